@@ -296,6 +296,7 @@ func Run(prop string) {
 	idx := 0
 	if prop == "C03" {
 		regressions(r)
+		endToEnd(r)
 		bigWrites(r)
 		readPacketCases(r)
 		concurrentWriters(r)
